@@ -99,6 +99,7 @@ type UserOp struct {
 	N    int    `json:"n,omitempty"`
 	Segs []int  `json:"segs,omitempty"`
 	Late bool   `json:"late,omitempty"` // issue only after the connection was closed
+	To2  int    `json:"to2,omitempty"`  // broadcastv: 1 + index of the second connection that gets the same batch
 }
 
 type UserPlan struct {
